@@ -1,6 +1,7 @@
 package main
 
 import (
+	"sync"
 	"fmt"
 	"reflect"
 	"strings"
@@ -418,50 +419,79 @@ func (w *world) obsProps() M {
 
 // chainLen counts the links of an owner's property chain by walking the (unexported) fields with
 // reflection: owner.propertyImpl.properties -> *valueProperty{chain, key, val} -> ... (read-only).
-// chainLen measures an owner's stored property state through its private representation (a chain of
-// valueProperty links hanging off propertyImpl.properties). If the representation is not the one this was
-// written against, the growth clause cannot be measured: that is reported as a failure of the machinery, never
-// silently accepted.
+// chainLen measures an owner's stored property state. It does not depend on the names of the library's private
+// types and fields: starting from the owner, only values whose static type belongs to the library's core package
+// are followed; a map or slice counts its length, and a struct that holds something of the empty interface type (a
+// key, a value) counts as one entry -- so a linked chain of (key, value, next) links, a map and a slice of pairs all
+// measure as their number of entries. If nothing measurable is found after a property has been set, the growth
+// clause cannot be measured: that is a failure of the machinery (exit 2), never silently accepted.
 func chainLen(owner interface{}) int {
-	n := chainLen1(owner)
-	if n < 0 {
-		derr("property storage of %T is not the propertyImpl/valueProperty chain this driver measures", owner)
-	}
-	return n
+	propMeasureOnce.Do(func() {
+		t := tabular.New()
+		t.SetProperty("verif-probe", 1)
+		if propSize(reflect.ValueOf(t), 0) < 1 {
+			derr("the stored property state of the library's owners cannot be measured by this driver (representation not recognised)")
+		}
+	})
+	return propSize(reflect.ValueOf(owner), 0)
 }
 
-func chainLen1(owner interface{}) int {
-	v := reflect.ValueOf(owner)
+var propMeasureOnce sync.Once
+
+const corePkg = "go.pennock.tech/tabular"
+
+var emptyIface = reflect.TypeOf((*interface{})(nil)).Elem()
+
+// isPropType: a type of the core package whose name says it is about properties (the walk starts at such a field of
+// the owner, so that rows' cells, tables' rows and callback lists are not mistaken for property storage)
+func isPropType(t reflect.Type) bool {
+	for t.Kind() == reflect.Ptr {
+		t = t.Elem()
+	}
+	return t.PkgPath() == corePkg && strings.Contains(strings.ToLower(t.Name()), "propert")
+}
+
+func propSize(v reflect.Value, depth int) int {
+	if depth > 200000 {
+		return depth
+	}
 	for v.Kind() == reflect.Ptr || v.Kind() == reflect.Interface {
 		if v.IsNil() {
 			return 0
 		}
 		v = v.Elem()
 	}
-	if v.Kind() != reflect.Struct {
-		return -1
-	}
-	pi := v.FieldByName("propertyImpl")
-	if !pi.IsValid() {
-		return -1
-	}
-	cur := pi.FieldByName("properties")
-	if !cur.IsValid() {
-		return -1
-	}
-	n := 0
-	for depth := 0; depth < 100000; depth++ {
-		for cur.Kind() == reflect.Interface || cur.Kind() == reflect.Ptr {
-			if cur.IsNil() {
-				return n
+	switch v.Kind() {
+	case reflect.Map, reflect.Slice:
+		return v.Len()
+	case reflect.Struct:
+		if v.Type().PkgPath() != corePkg {
+			return 0
+		}
+		n := 0
+		entry := false
+		inProps := isPropType(v.Type())
+		for i := 0; i < v.NumField(); i++ {
+			f := v.Field(i)
+			ft := v.Type().Field(i).Type
+			if ft == emptyIface {
+				entry = entry || inProps
+				continue
 			}
-			cur = cur.Elem()
+			if inProps || isPropType(ft) {
+				switch f.Kind() {
+				case reflect.Ptr, reflect.Interface, reflect.Map, reflect.Slice, reflect.Struct:
+					if inProps && !(isPropType(ft) || f.Kind() == reflect.Map || f.Kind() == reflect.Slice) {
+						continue
+					}
+					n += propSize(f, depth+1)
+				}
+			}
 		}
-		if cur.Kind() != reflect.Struct || cur.Type().Name() != "valueProperty" || !cur.FieldByName("chain").IsValid() {
-			return -1
+		if entry {
+			n++
 		}
-		n++
-		cur = cur.FieldByName("chain")
+		return n
 	}
-	return n
+	return 0
 }
